@@ -17,6 +17,7 @@
 //!   wbs=N   h1_write_buffer_size (default 32768)        seg=N  max bytes per poll_read (default 1024, 0 = fill everything offered)
 //!   wseg=N  max bytes per poll_write (default: no cap)  hc=0|1 h1_allow_half_closed (default 1)
 //!   +[K*]gH            K GET requests, head padded to H bytes
+//!   +[K*]m             K minimal requests `A / HTTP/1.1\n\n` (14 bytes, bare LF)
 //!   +[K*]lH:N          K POST requests, head H bytes, content-length N followed by N body bytes
 //!   +[K*]kH:CxM        K chunked POST requests, head H bytes, M chunks of C bytes, then the last-chunk
 //!   +KH:CxM            chunked POST that never terminates (M chunks, no last-chunk)
@@ -51,12 +52,38 @@ use tokio::io::{AsyncRead, AsyncWrite, ReadBuf};
 use super::Prop;
 use crate::common::{block_on_system, CaseResult, Ctx, Rng, Tier};
 
-// ---- constants the oracle's bounds are made of (kept in step with the source by a self-check
-// ---- against the values gen_consts extracts: see `consts_from_source`)
-const MAX_BUFFER_SIZE: usize = 131_072; // h1/decoder.rs
-const LW_BUFFER_SIZE: usize = 1024; // h1/dispatcher.rs
-const PAYLOAD_MAX: usize = 32_768; // h1/payload.rs
-const MAX_PIPELINED: usize = 16; // h1/dispatcher.rs
+// ---- constants the oracle's bounds are made of: re-read on every run from the file
+// ---- `tools/gen_consts.py` extracts from the source (lean/ActixModel/Consts.lean), so that model,
+// ---- theorems and oracle always speak about the constants the code has now; the literals are
+// ---- the pinned commit's values, used only if that file cannot be read
+struct K {
+    max_buffer: usize, // h1/decoder.rs MAX_BUFFER_SIZE
+    lw: usize,         // h1/dispatcher.rs LW_BUFFER_SIZE
+    hw: usize,         // h1/dispatcher.rs HW_BUFFER_SIZE
+    payload_max: usize, // h1/payload.rs MAX_BUFFER_SIZE
+    max_pipelined: usize, // h1/dispatcher.rs MAX_PIPELINED_MESSAGES
+}
+
+fn consts_from_source() -> &'static K {
+    static CELL: std::sync::OnceLock<K> = std::sync::OnceLock::new();
+    CELL.get_or_init(|| {
+        let path = concat!(env!("CARGO_MANIFEST_DIR"), "/../lean/ActixModel/Consts.lean");
+        let txt = std::fs::read_to_string(path).unwrap_or_default();
+        let get = |name: &str, dflt: usize| -> usize {
+            let pat = format!("def {} : Nat := ", name);
+            txt.find(&pat)
+                .and_then(|p| txt[p + pat.len()..].split_whitespace().next().and_then(|v| v.parse().ok()))
+                .unwrap_or(dflt)
+        };
+        K {
+            max_buffer: get("h1MaxBufferSize", 131_072),
+            lw: get("h1LwBufferSize", 1024),
+            hw: get("h1HwBufferSize", 8192),
+            payload_max: get("payloadMaxBufferSize", 32_768),
+            max_pipelined: get("h1MaxPipelined", 16),
+        }
+    })
+}
 const INF: u64 = u64::MAX / 4;
 
 const RULE: &str = "cases = (write-buffer size, read segment size, input stream of sized requests, script of stimuli: \
@@ -74,6 +101,8 @@ request reached the service or a 431/400 was produced; distinct = distinct (case
 #[derive(Clone, Debug, PartialEq)]
 enum Item {
     Get { h: usize },
+    /// the shortest request httparse accepts: `A / HTTP/1.1\n\n` (14 bytes)
+    Min,
     Len { h: usize, n: usize },
     Chunked { h: usize, c: usize, m: usize, term: bool },
     Junk { n: usize },
@@ -156,6 +185,7 @@ fn parse_item(s: &str, out: &mut Vec<Item>) -> Option<()> {
     let (k, rest) = s.split_at(s.len().min(1));
     let it = match k {
         "g" => Item::Get { h: rest.parse().ok()? },
+        "m" if rest.is_empty() => Item::Min,
         "l" => {
             let (h, n) = rest.split_once(':')?;
             Item::Len { h: h.parse().ok()?, n: n.parse().ok()? }
@@ -332,6 +362,10 @@ fn build_input(items: &[Item]) -> Option<(Vec<u8>, Vec<Lay>)> {
                 debug_assert_eq!(buf.len() - start, h);
                 lays.push(Lay { start, head: h, end: buf.len(), body: Body::None, unparsable: false });
             }
+            Item::Min => {
+                buf.extend_from_slice(b"A / HTTP/1.1\n\n");
+                lays.push(Lay { start, head: 14, end: buf.len(), body: Body::None, unparsable: false });
+            }
             Item::Len { h, n } => {
                 if h < len_base(n) || n == 0 {
                     return None;
@@ -398,6 +432,8 @@ struct OutSample {
     pulled_last: usize,
     ended_last: bool,
     accepted: usize,
+    /// taken just before a body chunk is pulled: the buffer must then be below the limit
+    before_pull: bool,
 }
 
 struct Shared {
@@ -457,10 +493,14 @@ impl Shared {
         self.hwm_pipe_ahead = self.hwm_pipe_ahead.max(p);
     }
     fn note_out(&mut self) {
+        self.note_out2(false)
+    }
+    fn note_out2(&mut self, before_pull: bool) {
         let (pl, el) = self.resps.last().map(|r| (r.pulled, r.ended)).unwrap_or((0, false));
-        let s = OutSample { completions: self.resps.len(), pulled_last: pl, ended_last: el, accepted: self.accepted };
+        let s = OutSample { completions: self.resps.len(), pulled_last: pl, ended_last: el, accepted: self.accepted, before_pull };
         if let Some(last) = self.out_samples.last() {
-            if last.completions == s.completions
+            if !before_pull
+                && last.completions == s.completions
                 && last.pulled_last == s.pulled_last
                 && last.ended_last == s.ended_last
                 && last.accepted == s.accepted
@@ -553,6 +593,9 @@ impl MessageBody for ScriptBody {
         let mut s = this.sh.borrow_mut();
         if this.left > 0 {
             this.left -= 1;
+            if this.idx + 1 == s.resps.len() {
+                s.note_out2(true);
+            }
             s.resps[this.idx].pulled += 1;
             s.pulled_total += 1;
             s.note_out();
@@ -649,6 +692,8 @@ struct Outcome {
     nosettle: bool,
     statuses: Vec<u16>,
     head_lens: Vec<usize>,
+    /// some response head carried `connection: close`
+    close_seen: bool,
     parsed_all: bool,
     sh: Sh,
 }
@@ -810,7 +855,11 @@ fn drive(case: &Case) -> Option<Outcome> {
         (snaps, done, nosettle)
     });
     let (statuses, head_lens, parsed_all) = parse_out(&sh.borrow().out);
-    Some(Outcome { snaps, done, nosettle, statuses, head_lens, parsed_all, sh })
+    let close_seen = {
+        let s = sh.borrow();
+        s.out.windows(17).any(|w| w.eq_ignore_ascii_case(b"connection: close"))
+    };
+    Some(Outcome { snaps, done, nosettle, statuses, head_lens, close_seen, parsed_all, sh })
 }
 
 fn err_kind(e: &actix_http::error::DispatchError) -> &'static str {
@@ -846,17 +895,28 @@ fn enc_chunk(stream: bool, c: usize) -> usize {
 }
 
 fn oracle(case: &Case, o: &Outcome) -> Option<(String, String)> {
+    let k = consts_from_source();
+    let (k_maxbuf, k_lw, k_hw, k_pmax, k_pipe) = (k.max_buffer, k.lw, k.hw, k.payload_max, k.max_pipelined);
+    // a bound must be a bound: the constants themselves are capped (16 MiB / 4096 messages)
+    if k_maxbuf > (16 << 20) || k_pmax > (16 << 20) || k_pipe > 4096 {
+        return Some(("constant-is-no-bound".into(), format!("MAX_BUFFER_SIZE {} payload {} pipelined {}", k_maxbuf, k_pmax, k_pipe)));
+    }
     let s = o.sh.borrow();
     // the largest amount one poll_read could append: the scripted segment, or — greedy socket —
     // whatever BytesMut offered
     let max_read = if case.seg > 0 { case.seg.min(s.max_offered.max(1)) } else { s.max_offered };
-    let rmax = MAX_BUFFER_SIZE - 1 + max_read;
-    if s.min_offered != usize::MAX && s.min_offered < LW_BUFFER_SIZE {
-        return Some(("read-offer-below-lw".into(), format!("poll_read was offered {} < {}", s.min_offered, LW_BUFFER_SIZE)));
+    let rmax = k_maxbuf - 1 + max_read;
+    if s.min_offered != usize::MAX && s.min_offered < k_lw {
+        return Some(("read-offer-below-lw".into(), format!("poll_read was offered {} < {}", s.min_offered, k_lw)));
+    }
+    // BytesMut's growth policy (double, or len + HW) keeps the spare capacity offered to one read
+    // below 4 * k_maxbuf + 2 * k_hw while reads stop at k_maxbuf
+    if s.max_offered > 4 * k_maxbuf + 2 * k_hw {
+        return Some(("read-offer-ceiling".into(), format!("poll_read was offered {} bytes", s.max_offered)));
     }
     // (1) request-body bytes read ahead of the handler: what the channel may hold when it pauses
     // (< 32 768) plus the read buffer that was decoded into it, plus one refilled read buffer
-    let b_body = PAYLOAD_MAX - 1 + 2 * rmax;
+    let b_body = k_pmax - 1 + 2 * rmax;
     if s.hwm_body_ahead > b_body {
         return Some((
             "body-read-ahead".into(),
@@ -865,18 +925,18 @@ fn oracle(case: &Case, o: &Outcome) -> Option<(String, String)> {
     }
     // (2) unparsed input + queued pipelined requests beyond the request in service:
     // one full read buffer unparsed, one full read buffer decoded by the poll_request call that
-    // found fewer than MAX_PIPELINED_MESSAGES queued, and the MAX_PIPELINED-1 queued before it
+    // found fewer than MAX_PIPELINED_MESSAGES queued, and the k_pipe-1 queued before it
     let max_req = s
         .lays
         .iter()
         .map(|l| l.head + match l.body {
             Body::None => 0,
-            Body::Len(n) => n.min(PAYLOAD_MAX - 1 + rmax),
-            Body::Chunked(..) => (l.end - l.start - l.head).min(6 * (PAYLOAD_MAX - 1 + rmax)),
+            Body::Len(n) => n.min(k_pmax - 1 + rmax),
+            Body::Chunked(..) => (l.end - l.start - l.head).min(6 * (k_pmax - 1 + rmax)),
         })
         .max()
         .unwrap_or(0);
-    let b_pipe = 2 * rmax + (MAX_PIPELINED - 1) * max_req.min(2 * rmax + PAYLOAD_MAX);
+    let b_pipe = 2 * rmax + (k_pipe - 1) * max_req.min(2 * rmax + k_pmax);
     if s.hwm_pipe_ahead > b_pipe {
         return Some((
             "pipelined-read-ahead".into(),
@@ -886,9 +946,13 @@ fn oracle(case: &Case, o: &Outcome) -> Option<(String, String)> {
     // (3) a head that does not fit is refused with 431 and nothing more is read
     if let Some((k, l)) = s.lays.iter().enumerate().find(|(_, l)| l.unparsable || l.head > rmax) {
         let all_before_done = s.calls >= k && s.resps.len() >= k;
-        let offered_enough = s.avail >= l.start + l.head.min(rmax + 1) && l.head >= MAX_BUFFER_SIZE;
+        let offered_enough = s.avail >= l.start + l.head.min(rmax + 1) && l.head >= k_maxbuf;
         let is_junk_or_big = case.items.get(k).map(|i| !matches!(i, Item::Bad)).unwrap_or(false);
-        if is_junk_or_big && all_before_done && offered_enough && s.wbudget >= INF && o.parsed_all {
+        // the connection may legitimately end before the head is read: peer EOF in the script, or an
+        // earlier response that announced `connection: close` (unread request payload)
+        let has_eof = case.steps.iter().any(|st| matches!(st, Step::Eof));
+        let closed_by_response = o.close_seen && !o.statuses.contains(&431);
+        if is_junk_or_big && all_before_done && offered_enough && s.wbudget >= INF && o.parsed_all && !has_eof && !closed_by_response {
             let prev_closed = o.statuses.len() < k; // connection was closed before reaching it
             if !prev_closed {
                 if !o.statuses.contains(&431) {
@@ -904,6 +968,12 @@ fn oracle(case: &Case, o: &Outcome) -> Option<(String, String)> {
                     ));
                 }
             }
+        }
+    }
+    // (3b) after the refusal nothing else is answered
+    if let Some(p) = o.statuses.iter().position(|c| *c == 431) {
+        if p + 1 != o.statuses.len() {
+            return Some(("response-after-431".into(), format!("statuses {}", rle(&o.statuses))));
         }
     }
     // (4) response bytes buffered ahead of the socket
@@ -931,6 +1001,14 @@ fn oracle(case: &Case, o: &Outcome) -> Option<(String, String)> {
             + sm.pulled_last * enc_chunk(r.stream, r.chunk)
             + if sm.ended_last && r.stream { 5 } else { 0 };
         let held = produced.saturating_sub(sm.accepted);
+        // the mechanism itself: a chunk is pulled only while fewer than `wbs` bytes are buffered
+        // (exact when the heads are known; an unknown head counts 0, which only under-counts)
+        if sm.before_pull && held >= case.wbs {
+            return Some((
+                "chunk-pulled-over-limit".into(),
+                format!("a body chunk was pulled while {} >= h1_write_buffer_size {} bytes were buffered", held, case.wbs),
+            ));
+        }
         if held > worst {
             worst = held;
             worst_at = sm.completions;
@@ -1007,6 +1085,8 @@ fn run(line: &str) -> CaseResult {
     let mut res = CaseResult::ok(out);
     {
         let s = o.sh.borrow();
+        let k = consts_from_source();
+        let (k_pmax, k_maxbuf) = (k.payload_max, k.max_buffer);
         res.nontrivial = s.calls > 0 || o.statuses.iter().any(|c| *c == 431 || *c == 400);
         if s.calls > 1 {
             res.tags.push("pipelined".into());
@@ -1017,10 +1097,10 @@ fn run(line: &str) -> CaseResult {
         if o.statuses.contains(&400) {
             res.tags.push("400".into());
         }
-        if s.hwm_body_ahead >= PAYLOAD_MAX {
+        if s.hwm_body_ahead >= k_pmax {
             res.tags.push("payload-paused".into());
         }
-        if s.hwm_pipe_ahead >= MAX_BUFFER_SIZE {
+        if s.hwm_pipe_ahead >= k_maxbuf {
             res.tags.push("readbuf-full".into());
         }
         if s.pulled_total > 0 {
@@ -1050,15 +1130,15 @@ fn run(line: &str) -> CaseResult {
 // ------------------------------------------------------------------------------------------
 
 fn gen(ctx: &Ctx) -> Vec<String> {
+    let k = consts_from_source();
+    let (k_pmax, k_pipe) = (k.payload_max, k.max_pipelined);
     let mut rng = Rng::new(ctx.seed);
     let mut cases: Vec<String> = Vec::new();
-    let segs = [1024usize, 1000, 512, 777, 1];
-    let _ = segs;
     // --- stalled handler, huge bodies
     for _ in 0..ctx.budget(6) {
         let seg = *rng.pick(&[1024usize, 1000, 512, 777]);
         let n = rng.range(200_000, 700_000);
-        let h = rng.range(40, 300);
+        let h = len_base(n) + rng.below(260);
         cases.push(format!("seg={} +l{}:{} S p c1 c3 C re W", seg, h, n));
         let c = *rng.pick(&[1usize, 7, 100, 1000, 4096, 70_000]);
         let m = (rng.range(300_000, 600_000) / (c + 8)).max(2);
@@ -1089,6 +1169,53 @@ fn gen(ctx: &Ctx) -> Vec<String> {
         let w1 = rng.range(1, 3000);
         cases.push(format!("wbs={} +g18 +g18 S r{}{}x{} p w{} w{} re W", wbs, kind, c, m, w1, rng.range(1, 100_000)));
     }
+    // --- boundaries: channel exactly at / around 32 768 on the feeding and on the consuming side
+    for _ in 0..ctx.budget(6) {
+        let d = rng.below(3); // -1, 0, +1
+        let a = rng.range(1, 5000);
+        let h = len_base(600_000) + rng.below(40);
+        cases.push(format!("+l{}:600000 s{} s{} p S p C re W", h, h, k_pmax + d - 1));
+        cases.push(format!("+l{}:600000 s{} s{} p s{} p c1 S p C re W", h, h, a, k_pmax + d - 1));
+        let c = *rng.pick(&[1usize, 2, 16, 4096]);
+        cases.push(format!("seg={} +k{}:{}x{} S c{} p c1 p C re W", rng.pick(&[1024usize, 1000]), CHUNKED_BASE, c, 400_000 / (c + 6), rng.range(1, 40)));
+    }
+    // --- boundaries: MAX_PIPELINED_MESSAGES - 1 / exactly / + 1 queued when the flood arrives
+    for _ in 0..ctx.budget(3) {
+        let h = rng.range(18, 30);
+        for q in [k_pipe - 1, k_pipe, k_pipe + 1] {
+            cases.push(format!("+16000*g{} s{} p s{} p S p Re W", h, h, h * q));
+        }
+    }
+    // --- boundaries: write buffer exactly at h1_write_buffer_size after the head / after a chunk
+    for _ in 0..ctx.budget(6) {
+        let c = rng.range(1, 300);
+        let enc = enc_chunk(true, c);
+        let k = rng.range(0, 3);
+        let d = rng.below(3);
+        // stream head is 84 bytes; after k chunks the buffer holds 84 + k*enc
+        let wbs = (84 + k * enc + d).saturating_sub(1).max(1);
+        cases.push(format!("wbs={} +g18 +g18 S rs{}x{} p w1 p rz7x3 W", wbs, c, k + 3));
+    }
+    // --- unread payloads, EOF, half-close, garbage
+    for _ in 0..ctx.budget(10) {
+        let hc = rng.below(2);
+        let body = match rng.below(3) {
+            0 => format!("+l{}:{}", len_base(200_000) + rng.below(20), rng.range(1, 200_000)),
+            1 => format!("+k{}:{}x{}", CHUNKED_BASE + rng.below(20), rng.range(1, 3000), rng.range(1, 60)),
+            _ => format!("+K{}:{}x{}", CHUNKED_BASE + rng.below(20), rng.range(1, 3000), rng.range(1, 60)),
+        };
+        let tail = *rng.pick(&["", "+g18", "+b", "+j150000"]);
+        let keep = if rng.chance(1, 3) { "k" } else { "" };
+        let mid = *rng.pick(&["S", "s100 p S", "S e", "s5000 e"]);
+        let resp = *rng.pick(&["re", "rn", "rs50x3", "rz10x2"]);
+        cases.push(format!("hc={} {} {} {} c{} {}{} p C Re W", hc, body, tail, mid, rng.below(4), resp, keep));
+    }
+    // --- a transport that fills whatever it is offered (oracle only: capacity growth is not modelled)
+    for _ in 0..ctx.budget(4) {
+        cases.push(format!("seg=0 +{}*g{} S p re W Re", rng.range(15_000, 40_000), rng.range(18, 25)));
+        cases.push(format!("seg=0 +l{}:{} S p c1 C re W", len_base(900_000), rng.range(300_000, 900_000)));
+        cases.push(format!("seg=0 +j{} s{} p S W", rng.range(280_000, 600_000), rng.range(130_000, 131_072)));
+    }
     // --- random mixes
     for _ in 0..ctx.budget(120) {
         let mut toks: Vec<String> = Vec::new();
@@ -1096,6 +1223,9 @@ fn gen(ctx: &Ctx) -> Vec<String> {
         toks.push(format!("seg={}", rng.pick(&[1024usize, 1000, 100, 17])));
         if rng.chance(1, 3) {
             toks.push(format!("wseg={}", rng.pick(&[1usize, 10, 1000])));
+        }
+        if rng.chance(1, 4) {
+            toks.push("hc=0".into());
         }
         let nit = rng.range(1, 5);
         for _ in 0..nit {
@@ -1111,9 +1241,16 @@ fn gen(ctx: &Ctx) -> Vec<String> {
                 _ => toks.push(format!("+{}g{}", pre, rng.range(18, 60))),
             }
         }
+        if rng.chance(1, 6) {
+            toks.push(rng.pick(&["+b", "+j140000", "+j50"]).to_string());
+        }
+        // most scripts start by making input readable
+        if rng.chance(4, 5) {
+            toks.push(if rng.chance(1, 2) { "S".to_owned() } else { format!("s{}", rng.range(1, 200_000)) });
+        }
         let nst = rng.range(2, 14);
         for _ in 0..nst {
-            let t = match rng.below(10) {
+            let t = match rng.below(12) {
                 0 => format!("s{}", rng.range(1, 50_000)),
                 1 => "S".to_owned(),
                 2 => format!("c{}", rng.range(1, 5)),
@@ -1123,12 +1260,14 @@ fn gen(ctx: &Ctx) -> Vec<String> {
                 6 => format!("rz{}x{}", rng.range(1, 3000), rng.range(1, 8)),
                 7 => format!("w{}", rng.range(1, 5000)),
                 8 => "W".to_owned(),
+                9 => "e".to_owned(),
+                10 => rng.pick(&["rek", "rn", "rs9x2k"]).to_string(),
                 _ => "p".to_owned(),
             };
             toks.push(t);
         }
         if rng.chance(1, 2) {
-            toks.push("Re".into());
+            toks.push(rng.pick(&["Re", "Rs100x3", "Rn"]).to_string());
             toks.push("C".into());
             toks.push("W".into());
         }
